@@ -112,6 +112,14 @@ theorem rangeLoop_fx (step : Env → Nat → Val → Res) (P : Env → Prop) (f 
     · simp [Val.ofList, rangeLoop, h1, h2]
     · simp [hf2, hf1, List.append_assoc]
 
+/-- The same, in the form used after `generalize`: the loop's result is named (and fixes `step` by unification). -/
+theorem rangeLoop_fx_res {step : Env → Nat → Val → Res} {xs : List Val} {i : Nat} {env : Env} {res : Res}
+    (hl : rangeLoop step i (Val.ofList xs) env = res) (P : Env → Prop) (f : Val → List Val) (hP : P env)
+    (hstep : ∀ en i x, x ∈ xs → P en → ∃ en', step en i x = .normal en' ∧ fxOf en' = fxOf en ++ f x ∧ P en') :
+    ∃ env', res = .normal env' ∧ fxOf env' = fxOf env ++ xs.flatMap f ∧ P env' := by
+  subst hl
+  exact rangeLoop_fx step P f xs hstep i env hP
+
 /-- `mgsimp [extra lemmas]`: symbolic evaluation of a MiniGo run by `simp` with the interpreter's equations. -/
 syntax "mgsimp" ("[" Lean.Parser.Tactic.simpLemma,* "]")? : tactic
 macro_rules
